@@ -28,7 +28,7 @@ Proof. reflexivity. Qed.
 (* ---- non-vacuity ---- *)
 Definition ex_ext : ext :=
   {| x_alpha := fun c => c =? 233; x_alnum := fun c => c =? 233; x_ws := fun _ => false;
-     x_query := fun _ _ => Some (QOk 1 (Some 1)); x_merged := fun _ => Some true; x_regex := fun _ => Some true |}.
+     x_query := fun _ _ => Some (QOk 1 (Some 1)); x_merged := fun _ => Some true; x_regex := fun _ => Some true; x_print := [] |}.
 Example ex_ext_total : OracleTotal ex_ext.
 Proof. repeat split; intros; cbn; congruence. Qed.
 Definition ex_text : str := [59; 32; 104; 233; 108; 108; 111; 10; 103; 108; 111; 98; 97; 108; 32; 103; 63; 10; 40; 105; 100; 101; 110; 116; 105; 102; 105; 101; 114; 41; 32; 64; 105; 100; 32; 123; 10; 32; 32; 105; 102; 32; 115; 111; 109; 101; 116; 104; 105; 110; 103; 44; 32; 110; 111; 110; 101; 95; 108; 101; 102; 116; 32; 123; 32; 112; 114; 105; 110; 116; 32; 34; 97; 92; 110; 34; 44; 32; 91; 49; 44; 50; 44; 93; 44; 32; 36; 49; 32; 125; 10; 32; 32; 115; 99; 97; 110; 32; 34; 120; 34; 32; 123; 32; 34; 97; 40; 98; 41; 34; 32; 123; 32; 101; 100; 103; 101; 32; 110; 32; 45; 62; 32; 110; 46; 102; 111; 111; 32; 46; 32; 98; 97; 114; 32; 125; 32; 125; 10; 125; 10].
@@ -58,11 +58,11 @@ Proof. exact parse_quantifier_no_error. Qed.
    dropped the appended capture, or rejected the merged source, the parser panics *)
 Definition ex_ext_dropped : ext :=
   {| x_alpha := fun _ => false; x_alnum := fun _ => false; x_ws := fun _ => false;
-     x_query := fun _ _ => Some (QOk 1 None); x_merged := fun _ => Some true; x_regex := fun _ => Some true |}.
+     x_query := fun _ _ => Some (QOk 1 None); x_merged := fun _ => Some true; x_regex := fun _ => Some true; x_print := [] |}.
 Example parse_panics_if_full_match_dropped : parse ex_ext_dropped (fuel_of [40; 109; 111; 100; 117; 108; 101; 41; 32; 123; 32; 125]) [40; 109; 111; 100; 117; 108; 101; 41; 32; 123; 32; 125] = PPanic 7.
 Proof. vm_compute. reflexivity. Qed.
 Definition ex_ext_merged : ext :=
   {| x_alpha := fun _ => false; x_alnum := fun _ => false; x_ws := fun _ => false;
-     x_query := fun _ _ => Some (QOk 1 (Some 0)); x_merged := fun _ => Some false; x_regex := fun _ => Some true |}.
+     x_query := fun _ _ => Some (QOk 1 (Some 0)); x_merged := fun _ => Some false; x_regex := fun _ => Some true; x_print := [] |}.
 Example parse_panics_if_merged_query_fails : parse ex_ext_merged (fuel_of [40; 109; 111; 100; 117; 108; 101; 41; 32; 123; 32; 125]) [40; 109; 111; 100; 117; 108; 101; 41; 32; 123; 32; 125] = PPanic 8.
 Proof. vm_compute. reflexivity. Qed.
